@@ -408,7 +408,7 @@ func (p *Prog) FrameObligations(prop string) []*Obligation {
 	case "C01":
 		return p.ownObligations(map[string]bool{"generator": true, "profile": true}, "C01")
 	case "C07":
-		return p.c07Obligations()
+		return append(p.c07Obligations(), p.hygBindObligations()...)
 	case "C10", "C09":
 		tags := []string{prop}
 		var entries []string
